@@ -12,19 +12,30 @@ package app
 
 //@ define aligned(tx) = jsonlen("app.VoteExtTx.OpAndEVMAddrs.EVMAddresses", tx) == jsonlen("app.VoteExtTx.OpAndEVMAddrs.OperatorAddresses", tx) && jsonlen("app.VoteExtTx.ValsetSigs.Timestamps", tx) == jsonlen("app.VoteExtTx.ValsetSigs.OperatorAddresses", tx) && jsonlen("app.VoteExtTx.ValsetSigs.Signatures", tx) == jsonlen("app.VoteExtTx.ValsetSigs.OperatorAddresses", tx) && jsonlen("app.VoteExtTx.OracleAttestations.Snapshots", tx) == jsonlen("app.VoteExtTx.OracleAttestations.OperatorAddresses", tx) && jsonlen("app.VoteExtTx.OracleAttestations.Attestations", tx) == jsonlen("app.VoteExtTx.OracleAttestations.OperatorAddresses", tx)
 
+// ncommit(vs, n): how many of the first n votes are commit votes (BlockIDFlagCommit == 2); only those carry
+// extensions whose signatures baseapp.ValidateVoteExtensions has verified.
+//@ define ncommit(vs, n) = sum j in [0, n) :: (vs[j].BlockIdFlag == 2 ? 1 : 0)
+
 //@ func (h *ProposalHandler).CheckInitialSignaturesFromLastCommit(ctx, commit) (ops, evms, err)
+//@ ensures [at_most_one_registration_per_commit_vote] len(ops) <= ncommit(commit.Votes, len(commit.Votes))
+//@ loop 0 invariant [only_commit_votes_contribute] len(operatorAddresses) <= ncommit(commit.Votes, $i) && ncommit(commit.Votes, $i) >= 0
 //@ requires [handler_present] h != nil
 //@ ensures [one_address_per_operator] err == nil && len(ops) == len(evms)
 //@ loop 0 "for _, vote := range commit.Votes"
 //@ loop 0 invariant [lists_grow_together] len(operatorAddresses) == len(evmAddresses)
 
 //@ func (h *ProposalHandler).CheckValsetSignaturesFromLastCommit(ctx, commit) (ops, timestamps, sigs, err)
+//@ ensures [at_most_one_signature_per_commit_vote] len(ops) <= ncommit(commit.Votes, len(commit.Votes))
+//@ loop 0 invariant [only_commit_votes_contribute] len(operatorAddresses) <= ncommit(commit.Votes, $i) && ncommit(commit.Votes, $i) >= 0
 //@ requires [handler_present] h != nil
 //@ ensures [one_timestamp_and_signature_per_operator] err == nil && len(ops) == len(timestamps) && len(ops) == len(sigs)
 //@ loop 0 "for _, vote := range commit.Votes"
 //@ loop 0 invariant [lists_grow_together] len(operatorAddresses) == len(timestamps) && len(operatorAddresses) == len(signatures)
 
 //@ func (h *ProposalHandler).CheckOracleAttestationsFromLastCommit(ctx, commit) (atts, snaps, ops, err)
+//@ ensures [no_attestations_without_commit_votes] ncommit(commit.Votes, len(commit.Votes)) == 0 ==> len(ops) == 0
+//@ loop 0 invariant [only_commit_votes_contribute] (ncommit(commit.Votes, $i) == 0 ==> len(operatorAddresses) == 0) && ncommit(commit.Votes, $i) >= 0
+//@ loop 1 invariant [only_commit_votes_contribute] ncommit(commit.Votes, $i0 + 1) > 0 && ncommit(commit.Votes, $i0) >= 0
 //@ requires [handler_present] h != nil
 //@ ensures [one_snapshot_and_attestation_per_operator] err == nil && len(ops) == len(snaps) && len(ops) == len(atts)
 //@ loop 0 "for _, vote := range commit.Votes"
